@@ -271,7 +271,9 @@ Variant(f, v, style) == CASE f = "hwloc" -> HwlocVar(v, style) [] f = "list" -> 
 (* --------- laws of this oracle itself (checked by TLC on the model) ----- *)
 RoundTripLaw(v) == \A f \in Fmts :
   /\ OutOK(f, Render(f, v), v)                                   \* canonical text is in the output language and denotes v
-  /\ LET p == Parse(f, Render(f, v), FALSE) IN p.ok /\ SameSet(p.v, v)
-  /\ LET p == Parse(f, Render(f, v), FALSE) IN Render(f, p.v) = Render(f, v)    \* canonical text does not depend on the width n
-  /\ \A st \in Styles(f) : LET p == Parse(f, Variant(f, v, st), FALSE) IN p.ok /\ SameSet(p.v, v)
+  /\ LET p == Parse(f, Render(f, v), FALSE) IN
+       /\ p.ok /\ SameSet(p.v, v)
+       /\ Render(f, p.v) = Render(f, v)                           \* canonical text does not depend on the width n
+VariantLaw(v) == \A f \in Fmts : \A st \in Styles(f) :
+  LET p == Parse(f, Variant(f, v, st), FALSE) IN p.ok /\ SameSet(p.v, v)
 =============================================================================
